@@ -134,9 +134,16 @@ class FrontGen:
             out.append(('sqf', 'a = 0x%s;' % ('F' * digits), {}, 'hexadecimal with %d digits' % digits))
             out.append(('sqf', 'a = 1e%s;' % ('9' * digits), {}, 'exponent with %d digits' % digits))
             out.append(('cfg', 'class A { x = %s; y = 1e%s; z[] = {%s}; };' % ('9' * digits, '9' * digits, '9' * digits), {}, 'config numbers with %d digits' % digits))
+            out.append(('cfg', '#line %s "x.cpp"\nclass A { v = 1; };' % ('9' * digits), {}, 'config #line with %d digits' % digits))
+            out.append(('configparse', '#line %s "x.cpp"\nclass A { v = 1; };' % ('9' * digits), {}, 'config #line with %d digits, from a script' % digits))
+            out.append(('cfg', 'class A { v = 0x%s; w = $%s; };' % ('F' * digits, 'F' * digits), {}, 'config hexadecimal with %d digits' % digits))
         out.append(('sqf', '#line 18446744073709551615 "x"\n1', {}, '#line 2^64-1'))
         out.append(('sqf', '#line 18446744073709551616 "x"\n1', {}, '#line 2^64'))
         out.append(('sqf', '#line 1 "' + 'p' * 100000 + '"\n1', {}, '#line with a long path'))
+        out.append(('cfg', '#line 18446744073709551615 "x"\nclass A {};', {}, 'config #line 2^64-1'))
+        out.append(('cfg', '#line 18446744073709551616 "x"\nclass A {};', {}, 'config #line 2^64'))
+        out.append(('cfg', '#line', {}, 'config #line alone'))
+        out.append(('cfg', '#line 1 "', {}, 'config #line with an open path'))
         out.append(('sqf', '#line', {}, '#line alone'))
         out.append(('sqf', '#line 1', {}, '#line without path'))
         out.append(('sqf', '#line 1 "', {}, '#line with an open path'))
